@@ -38,7 +38,7 @@ for p in props:
 man = {
     'version': 1,
     'setup_cmd': './bootstrap.sh',
-    'hooks': {'guard': 'AWESOMEYAML_VERIF', 'enable': 'no source hooks: all instrumentation is installed from the harness process by setting module attributes', 'baseline_off_cmd': '/venv/bin/python /verif/tools/baseline.py /repo', 'source_commits': [], 'add_only': True},
+    'hooks': {'guard': 'AWESOMEYAML_VERIF', 'enable': 'no source hooks in /repo: all instrumentation is installed from the harness process (module attributes; for C20 an import hook that compiles the package from its current source through an AST transformer)', 'baseline_off_cmd': '/venv/bin/python /verif/tools/baseline.py /repo', 'source_commits': [], 'add_only': True},
     'engines': [
         {'name': 'crosshair-z3', 'path': 'engine/xh_driver.py', 'serves_properties': [c['property_id'] for c in checks if c['engine'] == 'crosshair-z3'], 'kind_free_text': 'CrossHair 0.0.110 symbolic execution of the repository modules, z3 5.1 deciding each path; 16 worker processes'},
         {'name': 'sched-smt', 'path': 'engine/sched_smt.py', 'serves_properties': [c['property_id'] for c in checks if c['engine'] == 'sched-smt'], 'kind_free_text': 'z3 encoding of thread schedules over shared-memory events recorded from the real code; replay with real threads'},
